@@ -35,8 +35,8 @@ def _cases() -> List[dict]:
 
 def plan(tier: str) -> dict:
     return {
-        "runs": 1500 if tier == "quick" else 100000,
-        "budget": 90 if tier == "quick" else 900,
+        "runs": 6000 if tier == "quick" else 100000,
+        "budget": 150 if tier == "quick" else 900,
         "cases": _cases(),
         "chunk": 10,
         "rule": "Responses of 1-4 MiB written in chunks of up to 64 KiB against a client that has stopped reading "
